@@ -402,7 +402,7 @@ paf24_init (SF_PRIVATE *psf)
 	else
 		ppaf24->write_block = 0 ;
 
-	psf->sf.frames = PAF24_SAMPLES_PER_BLOCK * ppaf24->max_blocks ;
+	psf->sf.frames = (sf_count_t) PAF24_SAMPLES_PER_BLOCK * ppaf24->max_blocks ;
 	ppaf24->sample_count = psf->sf.frames ;
 
 	return 0 ;
@@ -431,7 +431,7 @@ paf24_seek (SF_PRIVATE *psf, int mode, sf_count_t offset)
 				if (psf->last_op == SFM_WRITE && ppaf24->write_count)
 					paf24_write_block (psf, ppaf24) ;
 
-				psf_fseek (psf, psf->dataoffset + newblock * ppaf24->blocksize, SEEK_SET) ;
+				psf_fseek (psf, psf->dataoffset + (sf_count_t) newblock * ppaf24->blocksize, SEEK_SET) ;
 				ppaf24->read_block = newblock ;
 				paf24_read_block (psf, ppaf24) ;
 				ppaf24->read_count = newsample ;
@@ -446,7 +446,7 @@ paf24_seek (SF_PRIVATE *psf, int mode, sf_count_t offset)
 				if (psf->last_op == SFM_WRITE && ppaf24->write_count)
 					paf24_write_block (psf, ppaf24) ;
 
-				psf_fseek (psf, psf->dataoffset + newblock * ppaf24->blocksize, SEEK_SET) ;
+				psf_fseek (psf, psf->dataoffset + (sf_count_t) newblock * ppaf24->blocksize, SEEK_SET) ;
 				ppaf24->write_block = newblock ;
 				paf24_read_block (psf, ppaf24) ;
 				ppaf24->write_count = newsample ;
@@ -457,7 +457,7 @@ paf24_seek (SF_PRIVATE *psf, int mode, sf_count_t offset)
 				return PSF_SEEK_ERROR ;
 		} ;
 
-	return newblock * PAF24_SAMPLES_PER_BLOCK + newsample ;
+	return (sf_count_t) newblock * PAF24_SAMPLES_PER_BLOCK + newsample ;
 } /* paf24_seek */
 
 static int
@@ -487,7 +487,7 @@ paf24_read_block (SF_PRIVATE *psf, PAF24_PRIVATE *ppaf24)
 	ppaf24->read_block ++ ;
 	ppaf24->read_count = 0 ;
 
-	if (ppaf24->read_block * PAF24_SAMPLES_PER_BLOCK > ppaf24->sample_count)
+	if ((sf_count_t) ppaf24->read_block * PAF24_SAMPLES_PER_BLOCK > ppaf24->sample_count)
 	{	memset (ppaf24->samples, 0, PAF24_SAMPLES_PER_BLOCK * ppaf24->channels) ;
 		return 1 ;
 		} ;
@@ -519,7 +519,7 @@ paf24_read (SF_PRIVATE *psf, PAF24_PRIVATE *ppaf24, int *ptr, int len)
 
 	while (total < len)
 	{	if (ppaf24->read_count >= PAF24_SAMPLES_PER_BLOCK)
-		{	if (ppaf24->read_block * PAF24_SAMPLES_PER_BLOCK >= ppaf24->sample_count)
+		{	if ((sf_count_t) ppaf24->read_block * PAF24_SAMPLES_PER_BLOCK >= ppaf24->sample_count)
 			{	memset (&(ptr [total]), 0, (len - total) * sizeof (int)) ;
 				return total ;
 				} ;
@@ -678,8 +678,8 @@ paf24_write_block (SF_PRIVATE *psf, PAF24_PRIVATE *ppaf24)
 	if ((k = (int) psf_fwrite (ppaf24->block, 1, ppaf24->blocksize, psf)) != ppaf24->blocksize)
 		psf_log_printf (psf, "*** Warning : short write (%d != %d).\n", k, ppaf24->blocksize) ;
 
-	if (ppaf24->sample_count < ppaf24->write_block * PAF24_SAMPLES_PER_BLOCK + ppaf24->write_count)
-		ppaf24->sample_count = ppaf24->write_block * PAF24_SAMPLES_PER_BLOCK + ppaf24->write_count ;
+	if (ppaf24->sample_count < (sf_count_t) ppaf24->write_block * PAF24_SAMPLES_PER_BLOCK + ppaf24->write_count)
+		ppaf24->sample_count = (sf_count_t) ppaf24->write_block * PAF24_SAMPLES_PER_BLOCK + ppaf24->write_count ;
 
 	if (ppaf24->write_count == PAF24_SAMPLES_PER_BLOCK)
 	{	ppaf24->write_block ++ ;
